@@ -72,6 +72,12 @@ Proof.
   now rewrite E1, E2.
 Qed.
 
+Lemma map_repeat' {A B} (f : A -> B) x k : map f (repeat x k) = repeat (f x) k.
+Proof. induction k as [|k IH]; cbn; [reflexivity | now rewrite IH]. Qed.
+
+Lemma pad_nil (w : nat) : pad w [] = repeat SP w.
+Proof. unfold pad. cbn. now rewrite Nat.sub_0_r. Qed.
+
 Lemma wrap_app W a b : wrap W (a ++ b) = wrap W a ++ wrap W b.
 Proof. unfold wrap. now rewrite map_app, concat_app. Qed.
 
@@ -246,7 +252,300 @@ Proof.
   destruct (rl_allow r now). cbn. repeat split.
 Qed.
 
-Section SysInv.
+Lemma tt_allow_forced tg now : tt_allow tg true now = (true, tg).
+Proof. reflexivity. Qed.
+
+(** the text lines an op hands to the draw target *)
+Definition op_texts (o : op) : list line :=
+  match o with OPrintln _ m => text_lines m | _ => [] end.
+
+Lemma op_texts_log o : suspend_ok o = true ->
+  match o with OSuspend _ _ => True | _ => map lt (op_texts o) = op_log o end.
+Proof. destruct o; intros _; try reflexivity; try exact I. cbn. apply text_lines_lt. Qed.
+
+(** The per-op case analysis, done once, generically in the invariant [I] that relates the target
+    (last_line_count, alignment, cursor_below), the terminal and the ghost log/frame, and in the
+    side condition [ok texts bars] on the painted draws. *)
+Section GenInv.
+  Variable W H : N.
+  Let Wn := N.to_nat W.
+  Let Hn := N.to_nat H.
+  Variable ok : list line -> list line -> Prop.
+  Variable I : ttarget -> term -> list text -> list text -> Prop.
+  Hypothesis ok_nil : ok [] [].
+  Hypothesis I_same : forall tg tg' t log frame,
+    tt_n tg' = tt_n tg -> tt_align tg' = tt_align tg -> tt_below tg' = tt_below tg ->
+    I tg t log frame -> I tg' t log frame.
+  Hypothesis I_draw : forall tg t log frame texts bars c,
+    I tg t log frame ->
+    Forall (fun l => is_bar l = false) texts -> Forall (fun l => is_bar l = true) bars ->
+    ok texts bars ->
+    I (fst (fst (fst (term_draw W H nofail tg (texts ++ bars) c))))
+      (run_ops Wn Hn t (snd (fst (fst (term_draw W H nofail tg (texts ++ bars) c)))))
+      (log ++ map lt texts) (map lt bars).
+  Hypothesis I_write : forall tg t log w,
+    I tg t log [] -> w <> [] -> I tg (exec Wn Hn t (TLine w)) (log ++ [w]) [].
+
+  Definition SInv (st : sys * ghost * term) : Prop :=
+    exists b tg, SB (fst (fst st)) b tg
+                 /\ I tg (snd st) (g_log (snd (fst st))) (map lt (g_frame (snd (fst st)))).
+
+  Lemma bar_draw_gen s b tg t log frame force now s' e :
+    SB s b tg -> I tg t log frame ->
+    bar_draw W H nofail s 0 force now = (s', e) ->
+    exists b' tg', SB s' b' tg'
+      /\ frame_of b' = frame_of b
+      /\ (force = true -> e <> [])
+      /\ ((e <> [] -> ok [] (frame_of b)) ->
+          I tg' (run_ops Wn Hn t e) log (match e with [] => frame | _ => map lt (frame_of b) end)).
+  Proof using I_same I_draw.
+    intros Hsb Hinv Hdraw. unfold bar_draw in Hdraw. rewrite (SB_get _ _ _ Hsb) in Hdraw.
+    destruct Hsb as [Hs Ht]. rewrite Ht in Hdraw.
+    pose proof (tt_allow_shape tg (force || finished b) now) as (Sn & Sa & Sb).
+    assert (Hforce : force = true -> fst (tt_allow tg (force || finished b) now) = true).
+    { intros ->. reflexivity. }
+    destruct (tt_allow tg (force || finished b) now) as [allowed tg1]. cbn [fst snd] in Sn, Sa, Sb, Hforce.
+    destruct allowed; cbn [negb] in Hdraw.
+    - pose proof (I_draw tg1 t log frame [] (frame_of b) (s_calls s)
+                    (I_same _ _ _ _ _ Sn Sa Sb Hinv) (Forall_nil _) (frame_of_bars b)) as Hd.
+      cbn [app] in Hd.
+      pose proof (term_draw_nonempty W H tg1 (frame_of b) (s_calls s)) as Hne.
+      destruct (term_draw W H nofail tg1 (frame_of b) (s_calls s)) as [[[tg2 e2] c2] ok2] eqn:Etd.
+      cbn [fst snd] in Hne, Hd. injection Hdraw as <- <-.
+      exists (set_b_target b (TTerm tg2)), tg2.
+      split; [apply SB_calls; apply (SB_upd_target s b tg); split; assumption|].
+      split; [apply frame_of_set_target|]. split; [intros _; exact Hne|].
+      intros Hfit. specialize (Hd (Hfit Hne)).
+      cbn [map app] in Hd. rewrite app_nil_r in Hd.
+      destruct e2; [congruence | exact Hd].
+    - injection Hdraw as <- <-. exists (set_b_target b (TTerm tg1)), tg1.
+      split; [apply (SB_upd_target s b tg); split; assumption|]. split; [apply frame_of_set_target|].
+      split; [intros Hf; specialize (Hforce Hf); discriminate|].
+      intros _. rewrite run_ops_nil. exact (I_same _ _ _ _ _ Sn Sa Sb Hinv).
+  Qed.
+
+  Lemma writes_gen tg : forall ws t log,
+    I tg t log [] -> forallb (fun w => match w with [] => false | _ => true end) ws = true ->
+    I tg (run_ops Wn Hn t (map TLine ws)) (log ++ ws) [].
+  Proof using I_write.
+    induction ws as [|w ws IH]; intros t log Hinv Hok.
+    - cbn [map]. rewrite run_ops_nil, app_nil_r. exact Hinv.
+    - cbn [forallb] in Hok. apply andb_prop in Hok. destruct Hok as [Hw Hok].
+      cbn [map]. rewrite run_ops_cons.
+      replace (log ++ w :: ws) with ((log ++ [w]) ++ ws) by (rewrite <- app_assoc; reflexivity).
+      apply IH; [|exact Hok]. apply I_write; [exact Hinv|]. destruct w; discriminate.
+  Qed.
+
+  (** an op that (after mutating the logical state, not the target) calls BarState::draw *)
+  Lemma draw_op_gen s1 g t b1 tg force now o :
+    SB s1 b1 tg -> I tg t (g_log g) (map lt (g_frame g)) ->
+    op_log o = [] -> op_texts o = [] ->
+    let r := bar_draw W H nofail s1 0 force now in
+    (snd r <> [] -> ok (op_texts o) (frame_of (get_bar (fst r) 0))) ->
+    SInv (fst r, gstep (fst r) (snd r) o g, run_ops Wn Hn t (snd r)).
+  Proof using I_same I_draw.
+    intros Hsb Hinv Hlog Htexts. cbv zeta.
+    destruct (bar_draw W H nofail s1 0 force now) as [s' e] eqn:Ed. cbn [fst snd].
+    intros Hfit.
+    destruct (bar_draw_gen _ _ _ t (g_log g) (map lt (g_frame g)) _ _ _ _ Hsb Hinv Ed)
+      as (b' & tg' & Hsb' & Hfr & _ & Hi).
+    exists b', tg'. cbn [fst snd]. split; [exact Hsb'|].
+    unfold gstep. cbn [g_log g_frame]. rewrite Hlog, app_nil_r.
+    rewrite (SB_get _ _ _ Hsb'), Hfr. rewrite Htexts, (SB_get _ _ _ Hsb'), Hfr in Hfit.
+    specialize (Hi Hfit). destruct e; exact Hi.
+  Qed.
+
+  Lemma nodraw_gen s1 g t b1 tg o :
+    SB s1 b1 tg -> I tg t (g_log g) (map lt (g_frame g)) -> op_log o = [] ->
+    SInv (s1, gstep s1 [] o g, run_ops Wn Hn t []).
+  Proof.
+    intros Hsb Hinv Hlog. exists b1, tg. cbn [fst snd]. split; [exact Hsb|].
+    unfold gstep. cbn [g_log g_frame]. rewrite Hlog, app_nil_r, run_ops_nil. exact Hinv.
+  Qed.
+
+  Lemma finish_target b k :
+    b_target (match k with
+              | FAndLeave => set_b_status (match b_len b with Some l => set_b_pos b l | None => b end) DoneVisible
+              | FWithMessage m => set_b_msg (set_b_status (match b_len b with Some l => set_b_pos b l | None => b end) DoneVisible) m
+              | FAndClear => set_b_status (match b_len b with Some l => set_b_pos b l | None => b end) DoneHidden
+              | FAbandon => set_b_status b DoneVisible
+              | FAbandonWithMessage m => set_b_msg (set_b_status b DoneVisible) m
+              end) = b_target b.
+  Proof. destruct k; destruct (b_len b); reflexivity. Qed.
+
+  Lemma step_gen s g t now o :
+    SInv (s, g, t) -> c01_op o = true -> suspend_ok o = true ->
+    (snd (fst (step W H nofail s now o)) <> [] ->
+     ok (op_texts o) (frame_of (get_bar (fst (fst (step W H nofail s now o))) 0))) ->
+    SInv (sb_step W H (s, g, t) (now, o)).
+  Proof using ok_nil I_same I_draw I_write.
+    intros (b & tg & Hsb & Hinv) Hop Hsus Hfit. cbn [fst snd] in Hsb, Hinv.
+    unfold sb_step. cbn [fst snd].
+    destruct o; cbn [c01_op] in Hop; try discriminate;
+      match goal with Hx : (?x =? 0) = true |- _ => apply N.eqb_eq in Hx; subst x end;
+      pose proof (SB_get _ _ _ Hsb) as Hget;
+      cbn [step fst snd] in *.
+    - (* tick *) unfold bar_tick in *.
+      eapply draw_op_gen; try reflexivity; try eassumption. apply SB_upd; [exact Hsb | reflexivity].
+    - (* inc *) unfold bar_pos_update in *.
+      set (s1 := upd_bar s 0 (fun x => set_b_pos x (wadd64 (b_pos x) d))) in *.
+      destruct (ap_allow (b_ap (get_bar s1 0)) now) as [a ap'].
+      set (s2 := upd_bar s1 0 (fun x => set_b_ap x ap')) in *.
+      assert (Hsb2 : SB s2 (set_b_ap (set_b_pos b (wadd64 (b_pos b) d)) ap') tg).
+      { unfold s2, s1.
+        exact (SB_upd _ _ tg (fun x => set_b_ap x ap') (SB_upd s b tg (fun x => set_b_pos x (wadd64 (b_pos x) d)) Hsb eq_refl) eq_refl). }
+      destruct a.
+      + unfold bar_tick in *. eapply draw_op_gen; try reflexivity; try eassumption.
+        apply SB_upd; [exact Hsb2 | reflexivity].
+      + cbn [fst snd]. eapply nodraw_gen; [exact Hsb2 | exact Hinv | reflexivity].
+    - (* dec *) unfold bar_pos_update in *.
+      set (s1 := upd_bar s 0 (fun x => set_b_pos x (wsub64 (b_pos x) d))) in *.
+      destruct (ap_allow (b_ap (get_bar s1 0)) now) as [a ap'].
+      set (s2 := upd_bar s1 0 (fun x => set_b_ap x ap')) in *.
+      assert (Hsb2 : SB s2 (set_b_ap (set_b_pos b (wsub64 (b_pos b) d)) ap') tg).
+      { unfold s2, s1.
+        exact (SB_upd _ _ tg (fun x => set_b_ap x ap') (SB_upd s b tg (fun x => set_b_pos x (wsub64 (b_pos x) d)) Hsb eq_refl) eq_refl). }
+      destruct a.
+      + unfold bar_tick in *. eapply draw_op_gen; try reflexivity; try eassumption.
+        apply SB_upd; [exact Hsb2 | reflexivity].
+      + cbn [fst snd]. eapply nodraw_gen; [exact Hsb2 | exact Hinv | reflexivity].
+    - (* set_position *) unfold bar_pos_update in *.
+      set (s1 := upd_bar s 0 (fun x => set_b_pos x p)) in *.
+      destruct (ap_allow (b_ap (get_bar s1 0)) now) as [a ap'].
+      set (s2 := upd_bar s1 0 (fun x => set_b_ap x ap')) in *.
+      assert (Hsb2 : SB s2 (set_b_ap (set_b_pos b p) ap') tg).
+      { unfold s2, s1.
+        exact (SB_upd _ _ tg (fun x => set_b_ap x ap') (SB_upd s b tg (fun x => set_b_pos x p) Hsb eq_refl) eq_refl). }
+      destruct a.
+      + unfold bar_tick in *. eapply draw_op_gen; try reflexivity; try eassumption.
+        apply SB_upd; [exact Hsb2 | reflexivity].
+      + cbn [fst snd]. eapply nodraw_gen; [exact Hsb2 | exact Hinv | reflexivity].
+    - (* set_length *)
+      eapply draw_op_gen; try reflexivity; try eassumption. apply SB_upd; [exact Hsb | reflexivity].
+    - (* inc_length *)
+      eapply draw_op_gen; try reflexivity; try eassumption. apply SB_upd; [exact Hsb | reflexivity].
+    - (* dec_length *)
+      eapply draw_op_gen; try reflexivity; try eassumption. apply SB_upd; [exact Hsb | reflexivity].
+    - (* unset_length *)
+      eapply draw_op_gen; try reflexivity; try eassumption. apply SB_upd; [exact Hsb | reflexivity].
+    - (* set_message *)
+      eapply draw_op_gen; try reflexivity; try eassumption. apply SB_upd; [exact Hsb | reflexivity].
+    - (* set_prefix *)
+      eapply draw_op_gen; try reflexivity; try eassumption. apply SB_upd; [exact Hsb | reflexivity].
+    - (* set_style *)
+      eapply nodraw_gen; [apply SB_upd; [exact Hsb | reflexivity] | exact Hinv | reflexivity].
+    - (* println *)
+      unfold bar_println in *. rewrite Hget in *. destruct Hsb as [Hs Ht]. rewrite Ht in *.
+      pose proof (I_draw tg t (g_log g) (map lt (g_frame g)) (text_lines m) (frame_of b) (s_calls s)
+                    Hinv (text_lines_texts m) (frame_of_bars b)) as Hd.
+      pose proof (term_draw_nonempty W H tg (text_lines m ++ frame_of b) (s_calls s)) as Hne.
+      destruct (term_draw W H nofail tg (text_lines m ++ frame_of b) (s_calls s)) as [[[tg2 e2] c2] ok2].
+      cbn [fst snd] in *.
+      assert (Hsb' : SB (set_s_calls (upd_bar s 0 (fun x => set_b_target x (TTerm tg2))) c2)
+                        (set_b_target b (TTerm tg2)) tg2).
+      { apply SB_calls. apply (SB_upd_target s b tg). split; assumption. }
+      rewrite (SB_get _ _ _ Hsb'), frame_of_set_target in Hfit.
+      exists (set_b_target b (TTerm tg2)), tg2. cbn [fst snd]. split; [exact Hsb'|].
+      unfold gstep. cbn [g_log g_frame op_log]. rewrite <- text_lines_lt.
+      rewrite (SB_get _ _ _ Hsb'), frame_of_set_target.
+      destruct e2; [congruence|]. apply Hd. apply Hfit. discriminate.
+    - (* suspend *)
+      unfold bar_suspend in *. rewrite Hget in *. pose proof Hsb as [Hs Ht]. rewrite Ht in *.
+      pose proof (I_draw tg t (g_log g) (map lt (g_frame g)) [] [] (s_calls s)
+                    Hinv (Forall_nil _) (Forall_nil _) ok_nil) as Hd.
+      cbn [app map] in Hd. rewrite app_nil_r in Hd.
+      pose proof (term_draw_nonempty W H tg [] (s_calls s)) as Hne.
+      destruct (term_draw W H nofail tg [] (s_calls s)) as [[[tg1 e1] c1] ok1].
+      cbn [fst snd] in Hd, Hne. rewrite emit_each_nofail in *.
+      set (s1 := set_s_calls (upd_bar s 0 (fun x => set_b_target x (TTerm tg1)))
+                             (c1 + N.of_nat (length (map TLine ws)))) in *.
+      assert (Hsb1 : SB s1 (set_b_target b (TTerm tg1)) tg1).
+      { apply SB_calls. apply (SB_upd_target s b tg). exact Hsb. }
+      destruct (bar_draw W H nofail s1 0 true now) as [s2 e3] eqn:Ed. cbn [fst snd] in *.
+      pose proof (writes_gen tg1 ws _ _ Hd Hsus) as Hw.
+      destruct (bar_draw_gen _ _ _ _ _ [] _ _ _ _ Hsb1 Hw Ed) as (b' & tg' & Hsb' & Hfr & Hforce & Hi).
+      specialize (Hforce eq_refl).
+      rewrite frame_of_set_target in Hfr, Hi.
+      rewrite (SB_get _ _ _ Hsb'), Hfr in Hfit.
+      exists b', tg'. cbn [fst snd]. split; [exact Hsb'|].
+      unfold gstep. cbn [g_log g_frame op_log]. rewrite (SB_get _ _ _ Hsb'), Hfr.
+      rewrite !run_ops_app.
+      assert (Hne3 : e1 ++ map TLine ws ++ e3 <> []).
+      { intros Hnil. apply app_eq_nil in Hnil. destruct Hnil as [Hn1 _]. congruence. }
+      specialize (Hi (fun _ => Hfit Hne3)).
+      destruct (e1 ++ map TLine ws ++ e3) eqn:Ee; [congruence|].
+      destruct e3; [congruence | exact Hi].
+    - (* reset *)
+      eapply draw_op_gen; try reflexivity; try eassumption. apply SB_upd; [exact Hsb | reflexivity].
+    - (* reset_eta *) eapply nodraw_gen; [exact Hsb | exact Hinv | reflexivity].
+    - (* reset_elapsed *) eapply nodraw_gen; [exact Hsb | exact Hinv | reflexivity].
+    - (* finish* / abandon* *)
+      unfold bar_finish in *.
+      eapply draw_op_gen; try reflexivity; try eassumption.
+      apply SB_upd; [exact Hsb | apply finish_target].
+    - (* finish_using_style *)
+      unfold bar_finish in *.
+      eapply draw_op_gen; try reflexivity; try eassumption.
+      apply SB_upd; [exact Hsb | apply finish_target].
+    - (* force_draw *)
+      eapply draw_op_gen; try reflexivity; eassumption.
+    - (* set_tab_width *)
+      eapply draw_op_gen; try reflexivity; eassumption.
+    - (* drop *)
+      unfold bar_drop in *. rewrite Hget in *.
+      destruct (finished b) eqn:Efin.
+      + cbn [fst snd] in *.
+        assert (Hmz : mark_zombie W s 0 = s).
+        { unfold mark_zombie. rewrite Hget. destruct Hsb as [_ Ht]. now rewrite Ht. }
+        rewrite Hmz in *.
+        eapply nodraw_gen; [apply SB_upd; [exact Hsb | reflexivity] | exact Hinv | reflexivity].
+      + unfold bar_finish in *.
+        set (s1 := upd_bar s 0 _) in *.
+        destruct (bar_draw W H nofail s1 0 true now) as [s2 e] eqn:Ed. cbn [fst snd] in *.
+        assert (Hsb1 : exists b1, SB s1 b1 tg).
+        { eexists. apply SB_upd; [exact Hsb | apply finish_target]. }
+        destruct Hsb1 as (b1 & Hsb1).
+        destruct (bar_draw_gen _ _ _ t (g_log g) (map lt (g_frame g)) _ _ _ _ Hsb1 Hinv Ed)
+          as (b' & tg' & Hsb' & Hfr & _ & Hi).
+        assert (Hmz : mark_zombie W s2 0 = s2).
+        { unfold mark_zombie. rewrite (SB_get _ _ _ Hsb'). destruct Hsb' as [_ Ht']. now rewrite Ht'. }
+        rewrite Hmz in *.
+        assert (Hsb3 : SB (upd_bar s2 0 (fun x => set_b_alive x false)) (set_b_alive b' false) tg').
+        { exact (SB_upd s2 b' tg' (fun x => set_b_alive x false) Hsb' eq_refl). }
+        rewrite (SB_get _ _ _ Hsb3), frame_of_set_alive, Hfr in Hfit.
+        exists (set_b_alive b' false), tg'. cbn [fst snd]. split; [exact Hsb3|].
+        unfold gstep. cbn [g_log g_frame op_log]. rewrite app_nil_r.
+        rewrite (SB_get _ _ _ Hsb3), frame_of_set_alive, Hfr.
+        specialize (Hi Hfit). destruct e; exact Hi.
+  Qed.
+  (** the side condition along a history *)
+  Fixpoint ok_hist (s : sys) (h : list (N * op)) : Prop :=
+    match h with
+    | [] => True
+    | x :: r =>
+        (snd (fst (step W H nofail s (fst x) (snd x))) <> [] ->
+         ok (op_texts (snd x)) (frame_of (get_bar (fst (fst (step W H nofail s (fst x) (snd x)))) 0)))
+        /\ ok_hist (fst (fst (step W H nofail s (fst x) (snd x)))) r
+    end.
+
+  Lemma sb_step_sys s g t x : fst (fst (sb_step W H (s, g, t) x)) = fst (fst (step W H nofail s (fst x) (snd x))).
+  Proof. unfold sb_step. destruct (step W H nofail s (fst x) (snd x)) as [[s' e] r]. reflexivity. Qed.
+
+  Lemma run_gen : forall h s g t,
+    SInv (s, g, t) -> hist_ok h -> ok_hist s h -> SInv (sb_run W H (s, g, t) h).
+  Proof using ok_nil I_same I_draw I_write.
+    induction h as [|[now o] h IH]; intros s g t Hinv Hok Hfit; [exact Hinv|].
+    unfold sb_run. cbn [fold_left]. fold (sb_run W H).
+    inversion Hok as [|x l [Hc Hs] Hok']; subst. cbn [fst snd] in Hc, Hs.
+    destruct Hfit as [Hf1 Hf2]. cbn [fst snd] in Hf1, Hf2.
+    pose proof (step_gen s g t now o Hinv Hc Hs Hf1) as Hinv'.
+    pose proof (sb_step_sys s g t (now, o)) as Hsys. cbn [fst snd] in Hsys.
+    destruct (sb_step W H (s, g, t) (now, o)) as [[s' g'] t']. cbn [fst snd] in Hsys. subst s'.
+    apply IH; assumption.
+  Qed.
+End GenInv.
+
+Section C01.
   Variable W H : N.
   Hypothesis HW : 1 <= W.
   Hypothesis HH : 1 <= H.
@@ -254,44 +553,473 @@ Section SysInv.
   Let Wn := N.to_nat W.
   Let Hn := N.to_nat H.
 
+  Definition fit_ok (texts bars : list line) : Prop := visual_line_count bars W <= H.
+
   Lemma TInv_same tg tg' t log frame :
     tt_n tg' = tt_n tg -> tt_align tg' = tt_align tg -> tt_below tg' = tt_below tg ->
     TInv W H pre tg t log frame -> TInv W H pre tg' t log frame.
   Proof. unfold TInv. intros -> -> ->. exact (fun x => x). Qed.
 
-  (** BarState::draw on the single bar *)
-  Lemma bar_draw_inv s b tg t log frame force now s' e :
-    SB s b tg -> TInv W H pre tg t log frame ->
-    bar_draw W H nofail s 0 force now = (s', e) ->
-    (e <> [] -> visual_line_count (frame_of (get_bar s' 0)) W <= H) ->
-    exists b' tg', SB s' b' tg'
-      /\ frame_of b' = frame_of b
-      /\ TInv W H pre tg' (run_ops Wn Hn t e) log
-              (match e with [] => frame | _ => map lt (frame_of b) end).
+  Lemma TInv_draw tg t log frame texts bars c :
+    TInv W H pre tg t log frame ->
+    Forall (fun l => is_bar l = false) texts -> Forall (fun l => is_bar l = true) bars ->
+    fit_ok texts bars ->
+    TInv W H pre (fst (fst (fst (term_draw W H nofail tg (texts ++ bars) c))))
+      (run_ops Wn Hn t (snd (fst (fst (term_draw W H nofail tg (texts ++ bars) c)))))
+      (log ++ map lt texts) (map lt bars).
   Proof using HW HH.
-    intros Hsb Hinv Hdraw Hfit. unfold bar_draw in Hdraw. rewrite (SB_get _ _ _ Hsb) in Hdraw.
-    destruct Hsb as [Hs Ht]. rewrite Ht in Hdraw.
-    pose proof (tt_allow_shape tg (force || finished b) now) as (Sn & Sa & Sb).
-    destruct (tt_allow tg (force || finished b) now) as [allowed tg1]. cbn [snd] in Sn, Sa, Sb.
-    destruct allowed; cbn [negb] in Hdraw.
-    - pose proof (term_draw_inv W H HW HH pre tg1 t log frame [] (frame_of b) (s_calls s)
-                    (TInv_same _ _ _ _ _ Sn Sa Sb Hinv) (Forall_nil _) (frame_of_bars b)) as Hd.
-      cbn [app] in Hd.
-      destruct (term_draw W H nofail tg1 (frame_of b) (s_calls s)) as [[[tg2 e2] c2] ok2] eqn:Etd.
-      injection Hdraw as <- <-.
-      assert (Hsb' : SB (set_s_calls (upd_bar s 0 (fun x => set_b_target x (TTerm tg2))) c2)
-                        (set_b_target b (TTerm tg2)) tg2).
-      { apply SB_calls. apply (SB_upd_target s b tg). split; assumption. }
-      assert (Hfit' : visual_line_count (frame_of b) W <= H -> True) by trivial.
-      destruct e2 as [|o e2'] eqn:Ee.
-      + exfalso. pose proof (term_draw_nonempty W H tg1 (frame_of b) (s_calls s)) as Hne.
-        rewrite Etd in Hne. cbn [fst snd] in Hne. congruence.
-      + specialize (Hfit ltac:(discriminate)). rewrite (SB_get _ _ _ Hsb'), frame_of_set_target in Hfit.
-        destruct (Hd Hfit) as (Hinv' & _ & _). cbn [map app] in Hinv'. rewrite app_nil_r in Hinv'.
-        exists (set_b_target b (TTerm tg2)), tg2. split; [exact Hsb'|]. split; [apply frame_of_set_target|].
-        exact Hinv'.
-    - injection Hdraw as <- <-. exists (set_b_target b (TTerm tg1)), tg1.
-      split; [apply (SB_upd_target s b tg); split; assumption|]. split; [apply frame_of_set_target|].
-      rewrite run_ops_nil. exact (TInv_same _ _ _ _ _ Sn Sa Sb Hinv).
+    intros Hi Ht Hb Hf.
+    pose proof (term_draw_inv W H HW HH pre tg t log frame texts bars c Hi Ht Hb Hf) as Hd.
+    destruct (term_draw W H nofail tg (texts ++ bars) c) as [[[tg' e] c'] r]. cbn [fst snd].
+    exact (proj1 Hd).
   Qed.
-End SysInv.
+
+  Lemma TInv_write tg t log w :
+    TInv W H pre tg t log [] -> w <> [] -> TInv W H pre tg (exec Wn Hn t (TLine w)) (log ++ [w]) [].
+  Proof using HW HH.
+    assert (HWn : (1 <= Wn)%nat) by (unfold Wn; lia).
+    assert (HHn : (1 <= Hn)%nat) by (unfold Hn; lia).
+    intros Hinv Hw.
+    destruct Hinv as (Hal & L & F & Hr & HL & HF & Hlen & Hreach & Hbelow).
+    assert (HF0 : F = []).
+    { apply rows_equiv_length in HF. cbn in HF. destruct F; [reflexivity | discriminate]. }
+    subst F. rewrite app_nil_r in Hr. cbn [length] in Hlen.
+    destruct (line_spec Wn Hn (pre ++ L) t w HWn HHn Hr) as (Hr' & Hc' & Hre').
+    { left. exact Hw. }
+    split; [exact Hal|]. exists (L ++ chunks Wn w), [].
+    rewrite app_nil_r. repeat split.
+    + rewrite app_assoc. exact Hr'.
+    + rewrite wrap_app. apply rows_equiv_app; [exact HL|]. unfold wrap. cbn. rewrite app_nil_r. apply rows_equiv_refl.
+    + exact Hlen.
+    + lia.
+    + lia.
+    + lia.
+  Qed.
+
+  Lemma fits_ok_hist : forall h s, Fits W H s h -> ok_hist W H fit_ok s h.
+  Proof.
+    induction h as [|x h IH]; intros s Hf; [exact Logic.I|].
+    unfold Fits in Hf. cbn [fitsb] in Hf. apply andb_prop in Hf. destruct Hf as [Hf1 Hf2].
+    cbn [ok_hist]. split; [|apply IH; exact Hf2].
+    unfold fits_step in Hf1. destruct (step W H nofail s (fst x) (snd x)) as [[s' e] r]. cbn [fst snd].
+    intros Hne. destruct e; [congruence|]. unfold fit_ok. apply N.leb_le. exact Hf1.
+  Qed.
+
+  (** the invariant after every history *)
+  Lemma c01_invariant s0 t0 h :
+    sb_initial s0 -> ready Wn Hn pre t0 -> hist_ok h -> Fits W H s0 h ->
+    SInv (TInv W H pre) (sb_run W H (s0, ghost0, t0) h).
+  Proof using HW HH.
+    intros (b & tg & Hs & Ht & Hn0 & Hal & Hbel) Hr Hok Hfit.
+    apply (run_gen W H fit_ok (TInv W H pre)).
+    - unfold fit_ok. cbn. lia.
+    - intros tg1 tg1' t1 l1 f1 E1 E2 E3 Hi1. exact (TInv_same tg1 tg1' t1 l1 f1 E1 E2 E3 Hi1).
+    - intros tg1 t1 l1 f1 tx bs c1 Hi1 Htx Hbs Hk. exact (TInv_draw tg1 t1 l1 f1 tx bs c1 Hi1 Htx Hbs Hk).
+    - intros tg1 t1 l1 w1 Hi1 Hw1. exact (TInv_write tg1 t1 l1 w1 Hi1 Hw1).
+    - exists b, tg. cbn [fst snd ghost0 g_log g_frame map]. split; [split; assumption|].
+      split; [exact Hal|]. exists [], []. rewrite !app_nil_r. rewrite Hn0. cbn.
+      repeat split; try assumption; try reflexivity; lia.
+    - exact Hok.
+    - apply fits_ok_hist. exact Hfit.
+  Qed.
+
+
+  (** C01: the screen equation and the cursor clause *)
+  Theorem c01_screen s0 t0 h :
+    sb_initial s0 -> ready Wn Hn pre t0 -> hist_ok h -> Fits W H s0 h ->
+    let g := snd (fst (sb_run W H (s0, ghost0, t0) h)) in
+    let t := snd (sb_run W H (s0, ghost0, t0) h) in
+    (exists k, screen Wn t = map (pad Wn) (expected_rows W pre g) ++ repeat (repeat SP Wn) k)
+    /\ next_cell Wn t = (length (expected_rows W pre g), 0%nat).
+  Proof using HW HH.
+    intros Hinit Hr Hok Hfit. cbv zeta.
+    pose proof (c01_invariant s0 t0 h Hinit Hr Hok Hfit) as Hinv.
+    destruct (sb_run W H (s0, ghost0, t0) h) as [[s g] t]. unfold SInv in Hinv. cbn [fst snd] in *.
+    destruct Hinv as (b & tg & _ & _ & L & F & Hready & HL & HF & _).
+    assert (HWn : (1 <= Wn)%nat) by (unfold Wn; lia).
+    unfold expected_rows. unfold Wn, Hn in *. split.
+    - destruct (ready_all_rows _ _ _ _ Hready) as (k & Hall). exists k.
+      unfold screen. rewrite Hall. rewrite !map_app. unfold rows_equiv in HL, HF. rewrite HL, HF.
+      rewrite map_repeat', pad_nil. now rewrite <- !app_assoc.
+    - rewrite (ready_row _ _ _ _ HWn Hready). rewrite !app_length.
+      now rewrite (rows_equiv_length _ _ _ HL), (rows_equiv_length _ _ _ HF).
+  Qed.
+End C01.
+
+(** the hypotheses of a history hold for each of its prefixes: the theorem is about the state
+    after EVERY op *)
+Lemma fits_prefix W H : forall h1 h2 s, Fits W H s (h1 ++ h2) -> Fits W H s h1.
+Proof.
+  unfold Fits. induction h1 as [|x h1 IH]; intros h2 s Hf; [reflexivity|].
+  cbn [app fitsb] in *. apply andb_prop in Hf. destruct Hf as [Ha Hb].
+  rewrite Ha. cbn [andb]. eapply IH. exact Hb.
+Qed.
+
+Lemma hist_ok_prefix h1 h2 : hist_ok (h1 ++ h2) -> hist_ok h1.
+Proof. unfold hist_ok. intros Hf. apply Forall_app in Hf. exact (proj1 Hf). Qed.
+
+Theorem c01_screen_every_prefix W H pre s0 t0 h1 h2 :
+  1 <= W -> 1 <= H ->
+  sb_initial s0 -> ready (N.to_nat W) (N.to_nat H) pre t0 -> hist_ok (h1 ++ h2) -> Fits W H s0 (h1 ++ h2) ->
+  let g := snd (fst (sb_run W H (s0, ghost0, t0) h1)) in
+  let t := snd (sb_run W H (s0, ghost0, t0) h1) in
+  (exists k, screen (N.to_nat W) t
+             = map (pad (N.to_nat W)) (expected_rows W pre g) ++ repeat (repeat SP (N.to_nat W)) k)
+  /\ next_cell (N.to_nat W) t = (length (expected_rows W pre g), 0%nat).
+Proof.
+  intros HW HH Hi Hr Hok Hf.
+  exact (c01_screen W H HW HH pre s0 t0 h1 Hi Hr (hist_ok_prefix _ _ Hok) (fits_prefix _ _ _ _ _ Hf)).
+Qed.
+
+(* ================================================================== C19 *)
+Lemma paint_real W H : forall ls idx total real,
+  snd (paint ls idx total W H real) = real + bar_rows (painted ls W H real) W.
+Proof.
+  induction ls as [|l r IH]; intros idx total real; cbn [paint painted].
+  - unfold bar_rows. cbn. lia.
+  - destruct (is_bar l && (H <? real + wrapped_height l W)) eqn:E.
+    + unfold bar_rows. cbn. lia.
+    + specialize (IH (idx + 1) total (if is_bar l then real + wrapped_height l W else real)).
+      destruct (paint r (idx + 1) total W H (if is_bar l then real + wrapped_height l W else real)) as [ops rf].
+      cbn [snd] in *. rewrite IH. unfold bar_rows. cbn [filter].
+      destruct (is_bar l); [rewrite visual_line_count_cons|]; lia.
+Qed.
+
+Lemma painted_texts_bars W H texts : forall bars real,
+  Forall (fun l => is_bar l = false) texts ->
+  painted (texts ++ bars) W H real = texts ++ painted bars W H real.
+Proof.
+  induction texts as [|x texts IH]; intros bars real Ht; [reflexivity|].
+  inversion Ht as [|y l Hx Ht']; subst. cbn [app painted]. rewrite Hx. cbn [andb].
+  f_equal. apply IH. exact Ht'.
+Qed.
+
+Lemma bar_line_eta l : is_bar l = true -> mkline KBar (lt l) = l.
+Proof. destruct l as [k s]. unfold is_bar. cbn. destruct k; congruence. Qed.
+
+Lemma bars_eta bars : Forall (fun l => is_bar l = true) bars -> map (mkline KBar) (map lt bars) = bars.
+Proof.
+  induction 1 as [|l bars Hl Hb IH]; [reflexivity|]. cbn [map]. now rewrite bar_line_eta, IH.
+Qed.
+
+(** the maximal prefix of the frame whose accumulated rows fit the height *)
+Definition fitting_prefix (W H : N) (frame : list line) : list line := painted frame W H 0.
+
+(** C19 (c), one draw: the new last_line_count is the number of rows of the fitting prefix of the
+    Bar lines, at most H; the prefix is maximal; it is everything as soon as everything fits *)
+Lemma draw_rows_bounded W H ls n below :
+  let n' := snd (fst (draw_to_term ls n Top below W H)) in
+  let P := painted ls W H 0 in
+  n' = bar_rows P W /\ n' <= H
+  /\ (exists rest, ls = P ++ rest
+        /\ match rest with
+           | [] => True
+           | l :: _ => is_bar l = true /\ H < bar_rows P W + wrapped_height l W
+           end)
+  /\ (bar_rows ls W <= H -> P = ls).
+Proof.
+  cbv zeta. rewrite draw_to_term_top_eq. cbn [fst snd]. rewrite paint_real.
+  pose proof (painted_bar_rows_le W H ls 0 ltac:(lia)) as Hle.
+  destruct (painted_prefix W H ls 0) as (rest & Heq & Hrest).
+  repeat split; try lia.
+  - exists rest. split; [exact Heq|]. destruct rest; [exact I|]. destruct Hrest. split; [assumption | lia].
+  - intros Hfit. apply painted_all. lia.
+Qed.
+
+Lemma ghost_frame_bars W H : forall h st,
+  Forall (fun l => is_bar l = true) (g_frame (snd (fst st))) ->
+  Forall (fun l => is_bar l = true) (g_frame (snd (fst (sb_run W H st h)))).
+Proof.
+  induction h as [|x h IH]; intros st Hst; [exact Hst|].
+  unfold sb_run. cbn [fold_left]. apply IH.
+  destruct st as [[s g] t]. unfold sb_step.
+  destruct (step W H nofail s (fst x) (snd x)) as [[s' e] r]. cbn [fst snd gstep g_frame] in *.
+  destruct e; [exact Hst | apply frame_of_bars].
+Qed.
+
+Section C19History.
+  Variable W H : N.
+
+  Definition RInv (tg : ttarget) (t : term) (log frame : list text) : Prop :=
+    tt_align tg = Top
+    /\ tt_n tg = bar_rows (fitting_prefix W H (map (mkline KBar) frame)) W.
+
+  Lemma RInv_draw tg t log frame texts bars c :
+    RInv tg t log frame ->
+    Forall (fun l => is_bar l = false) texts -> Forall (fun l => is_bar l = true) bars ->
+    True ->
+    RInv (fst (fst (fst (term_draw W H nofail tg (texts ++ bars) c))))
+      (run_ops (N.to_nat W) (N.to_nat H) t (snd (fst (fst (term_draw W H nofail tg (texts ++ bars) c)))))
+      (log ++ map lt texts) (map lt bars).
+  Proof.
+    intros [Hal _] Ht Hb _. unfold term_draw. rewrite Hal.
+    pose proof (draw_rows_bounded W H (texts ++ bars) (tt_n tg) (tt_below tg)) as Hd. cbv zeta in Hd.
+    destruct (draw_to_term (texts ++ bars) (tt_n tg) Top (tt_below tg) W H) as [[ops n'] below'].
+    rewrite emit_nofail. cbn [fst snd tt_n tt_align] in *. destruct Hd as (Hn' & _).
+    split; [reflexivity|]. cbn [tt_n]. rewrite Hn'. unfold fitting_prefix.
+    rewrite (bars_eta bars Hb), (painted_texts_bars W H texts bars 0 Ht).
+    unfold bar_rows. rewrite filter_app.
+    assert (E : filter is_bar texts = []).
+    { clear -Ht. induction Ht as [|x l Hx Ht IH]; [reflexivity|]. cbn. now rewrite Hx. }
+    now rewrite E.
+  Qed.
+
+  (** C19 (c) over every history (no Fits proviso): after every op, last_line_count is the number
+      of rows of the maximal fitting prefix of the frame of the last painted draw, hence <= H *)
+  Theorem c19_rows_bounded s0 t0 h :
+    sb_initial s0 -> hist_ok h ->
+    let st := sb_run W H (s0, ghost0, t0) h in
+    exists b tg, s_bars (fst (fst st)) = [b] /\ b_target b = TTerm tg
+      /\ tt_n tg = bar_rows (fitting_prefix W H (g_frame (snd (fst st)))) W
+      /\ tt_n tg <= H.
+  Proof.
+    intros (b & tg & Hs & Ht & Hn0 & Hal & Hbel) Hok. cbv zeta.
+    assert (Hinv : SInv RInv (sb_run W H (s0, ghost0, t0) h)).
+    { apply (run_gen W H (fun _ _ => True) RInv).
+      - exact Logic.I.
+      - intros tg1 tg1' t1 l1 f1 E1 E2 E3 [Ha Hb]. split; congruence.
+      - exact RInv_draw.
+      - intros tg1 t1 l1 w1 Hi1 _. exact Hi1.
+      - exists b, tg. cbn [fst snd ghost0 g_log g_frame map]. split; [split; assumption|].
+        split; [exact Hal|]. rewrite Hn0. reflexivity.
+      - exact Hok.
+      - clear. revert s0. induction h as [|x h IH]; intros s0; cbn [ok_hist]; [exact Logic.I|].
+        split; [intros _; exact Logic.I | apply IH]. }
+    pose proof (ghost_frame_bars W H h (s0, ghost0, t0) (Forall_nil _)) as Hgb.
+    destruct (sb_run W H (s0, ghost0, t0) h) as [[s g] t]. unfold SInv in Hinv. cbn [fst snd] in *.
+    destruct Hinv as (b' & tg' & [Hs' Ht'] & Hal' & Hn').
+    exists b', tg'. split; [exact Hs'|]. split; [exact Ht'|].
+    rewrite (bars_eta _ Hgb) in Hn'. split; [exact Hn'|]. rewrite Hn'.
+    pose proof (painted_bar_rows_le W H (g_frame g) 0 ltac:(lia)). unfold fitting_prefix. lia.
+  Qed.
+End C19History.
+
+(* ------------------------------------------------------------------ C19 (d): erase exactness without Fits *)
+Local Open Scope nat_scope.
+(** the clear loop from the END of the last of the n rows [F] (any column: a frame cut by the
+    height `break` gets no filler): exactly the rows of F are blanked, nothing above *)
+Lemma erase_at_end Wn Hn C F k v (n : N) :
+  F <> [] -> length F = N.to_nat n -> N.to_nat n - 1 <= v -> v <= Hn - 1 ->
+  run_ops Wn Hn (at_end (C ++ F) k v) (clear_ops n)
+  = app_state C [] (N.to_nat n - 1 + k) (v - (N.to_nat n - 1)).
+Proof.
+  intros HF Hlen Hv Hh. unfold at_end. rewrite removelast_app by exact HF.
+  assert (Hn1 : (1 <= n)%N) by (destruct F; [congruence | cbn in Hlen; lia]).
+  rewrite erase_raw; unfold app_state; cbn [t_above t_cur t_below t_col t_vis];
+    try rewrite rev_length, app_length, removelast_length; try lia.
+  rewrite rev_app_distr, skipn_app, rev_length, removelast_length, Hlen.
+  rewrite skipn_all2 by (rewrite rev_length, removelast_length; lia).
+  replace (N.to_nat n - 1 - (N.to_nat n - 1)) with 0 by lia. cbn [skipn app].
+  rewrite <- repeat_app. reflexivity.
+Qed.
+Local Open Scope N_scope.
+
+Section C19Erase.
+  Variable W H : N.
+  Hypothesis HW : 1 <= W.
+  Hypothesis HH : 1 <= H.
+  Variable pre : list (list N).
+  Let Wn := N.to_nat W.
+  Let Hn := N.to_nat H.
+
+  (** the side condition: text lines are only drawn together with a frame whose first Bar line
+      fits the height (otherwise the `break` leaves the cursor behind the text: class
+      'text-drawn-while-no-bar-line-fits', see C19_text_cut_refuted) *)
+  Definition cut_ok (texts bars : list line) : Prop :=
+    texts = [] \/ match bars with [] => True | l :: _ => wrapped_height l W <= H end.
+
+  (** the terminal shows pre ++ log ++ (the fitting prefix of the frame); the cursor is at the
+      end of the last painted row (any column), the painted rows are within reach *)
+  Definition CInv (tg : ttarget) (t : term) (log frame : list text) : Prop :=
+    tt_align tg = Top /\
+    exists L F,
+      rows_equiv Wn L (wrap Wn log)
+      /\ rows_equiv Wn F (wrap Wn (map lt (fitting_prefix W H (map (mkline KBar) frame))))
+      /\ length F = N.to_nat (tt_n tg)
+      /\ ((F = [] /\ ready Wn Hn (pre ++ L) t)
+          \/ (F <> [] /\ tt_below tg = false /\ exists k v,
+                t = at_end (pre ++ L ++ F) k v /\ (v <= Hn - 1)%nat /\ (length F <= v + 1)%nat)).
+
+  Lemma vlc_pos_rows bars : bars <> [] -> 1 <= visual_line_count bars W.
+  Proof.
+    destruct bars as [|l r]; [congruence|]. intros _. rewrite visual_line_count_cons.
+    unfold wrapped_height. lia.
+  Qed.
+
+  Lemma CInv_draw tg t log frame texts bars c :
+    CInv tg t log frame ->
+    Forall (fun l => is_bar l = false) texts -> Forall (fun l => is_bar l = true) bars ->
+    cut_ok texts bars ->
+    CInv (fst (fst (fst (term_draw W H nofail tg (texts ++ bars) c))))
+      (run_ops Wn Hn t (snd (fst (fst (term_draw W H nofail tg (texts ++ bars) c)))))
+      (log ++ map lt texts) (map lt bars).
+  Proof using HW HH.
+    assert (HWn : (1 <= Wn)%nat) by (unfold Wn; lia).
+    assert (HHn : (1 <= Hn)%nat) by (unfold Hn; lia).
+    intros (Hal & L & F & HL & HF & Hlen & Hstate) Ht Hb Hok.
+    unfold term_draw. rewrite Hal. rewrite draw_to_term_top_eq. rewrite emit_nofail.
+    cbn [fst snd]. rewrite paint_real. rewrite N.add_0_l.
+    rewrite !app_assoc, run_ops_flush, run_ops_app.
+    (* erase phase *)
+    set (t1 := run_ops Wn Hn t ((if tt_below tg && (0 <? tt_n tg) then [TUp 1] else []) ++ clear_ops (tt_n tg))).
+    assert (Hr1 : ready Wn Hn (pre ++ L) t1).
+    { destruct Hstate as [[HF0 Hr] | (HFne & Hbel & k & v & Ht0 & Hv & Hreach)].
+      - subst F. cbn [length] in Hlen. assert (Hn0 : tt_n tg = 0) by lia.
+        unfold t1. rewrite Hn0, erase_spec_zero. exact Hr.
+      - unfold t1. rewrite Hbel. cbn [andb app]. rewrite Ht0, app_assoc.
+        rewrite erase_at_end by (assumption || lia). apply ready_start. lia. }
+    destruct (paint_spec W H HW HH (pre ++ L) t1 (texts ++ bars) Hr1) as (_ & Pb & Pc).
+    fold Wn Hn in Pc.
+    rewrite (painted_texts_bars W H texts bars 0 Ht) in *.
+    set (PB := painted bars W H 0) in *.
+    assert (HPBbars : Forall (fun l => is_bar l = true) PB).
+    { destruct (painted_prefix W H bars 0) as (rest & Heq & _). fold PB in Heq.
+      rewrite Heq in Hb. apply Forall_app in Hb. exact (proj1 Hb). }
+    assert (Hrows : bar_rows (texts ++ PB) W = visual_line_count PB W).
+    { unfold bar_rows. now rewrite filter_bars_app. }
+    rewrite Hrows.
+    split; [reflexivity|]. cbn [tt_n tt_below].
+    unfold fitting_prefix. rewrite (bars_eta bars Hb). fold PB.
+    destruct (texts ++ PB) as [|p0 P0] eqn:EP.
+    - (* nothing painted *)
+      apply app_eq_nil in EP. destruct EP as [-> EPB]. rewrite EPB in *.
+      rewrite (Pb eq_refl), run_ops_nil. exists L, []. cbn [map app]. rewrite app_nil_r.
+      repeat split; try assumption; try apply rows_equiv_refl.
+      left. split; [reflexivity | exact Hr1].
+    - rewrite <- EP in *. destruct (Pc ltac:(rewrite EP; discriminate)) as (k & Hk & Hlast).
+      set (R := paint_rows W true (Nat.eqb (length (texts ++ PB)) (length (texts ++ bars))) (texts ++ PB)) in *.
+      destruct (paint_rows_equiv W HW (texts ++ PB) true
+                  (Nat.eqb (length (texts ++ PB)) (length (texts ++ bars)))) as (HeR & HlR).
+      fold R Wn in HeR, HlR. rewrite map_app, wrap_app in HeR.
+      destruct (rows_equiv_split Wn R _ _ HeR) as (RT & RB & HRsplit & HeT & HeB).
+      assert (HlenB : length RB = N.to_nat (visual_line_count PB W)).
+      { rewrite (rows_equiv_length _ _ _ HeB), (visual_line_count_wrap PB W HW). fold Wn. lia. }
+      exists (L ++ RT), RB.
+      split; [rewrite wrap_app; apply rows_equiv_app; assumption|].
+      split; [exact HeB|]. split; [exact HlenB|].
+      destruct PB as [|pb PB'] eqn:EPB.
+      + (* only text lines painted: by cut_ok there are no Bar lines at all -> complete *)
+        left. assert (HRB : RB = []) by (destruct RB; [reflexivity | cbn in HlenB; lia]).
+        split; [exact HRB|]. subst RB. rewrite app_nil_r in *.
+        assert (Hbars : bars = []).
+        { destruct Hok as [Htx | Hfirst].
+          - subst texts. cbn in EP. discriminate.
+          - destruct bars as [|l r]; [reflexivity|]. exfalso.
+            unfold PB in EPB. cbn [painted] in EPB. inversion Hb as [|x y Hl Hr']; subst.
+            rewrite Hl in EPB. cbn [andb] in EPB.
+            destruct (N.ltb_spec H (0 + wrapped_height l W)); [lia | discriminate]. }
+        assert (Htne : texts <> []) by (intros ->; discriminate).
+        assert (HR : R = paint_rows W true true texts).
+        { unfold R. rewrite Hbars, !app_nil_r, Nat.eqb_refl. reflexivity. }
+        pose proof (paint_rows_last_full W HW texts true Htne) as Hfull. fold Wn in Hfull.
+        pose proof (paint_rows_nonempty W true true texts Htne) as Hne.
+        rewrite <- HR in Hfull, Hne.
+        rewrite Hk, <- HRsplit. rewrite (app_assoc pre L R).
+        apply at_end_ready; [destruct (pre ++ L); [exact Hne | discriminate] | | lia].
+        rewrite last_app_ne by exact Hne. exact Hfull.
+      + right. assert (HRBne : RB <> []).
+        { pose proof (vlc_pos_rows (pb :: PB') ltac:(discriminate)) as Hpos.
+          destruct RB; [cbn [length] in HlenB; lia | discriminate]. }
+        split; [exact HRBne|].
+        split.
+        { destruct (texts ++ bars) as [|q0 Q0] eqn:Etb; [|reflexivity].
+          apply app_eq_nil in Etb. destruct Etb as [_ Eb]. unfold PB in EPB. rewrite Eb in EPB.
+          cbn in EPB. discriminate. }
+        exists k, (Nat.min (Hn - 1) (reach t1 + length R - 1)).
+        split; [rewrite Hk, HRsplit, <- !app_assoc; reflexivity|].
+        split; [lia|].
+        pose proof (painted_bar_rows_le W H bars 0 ltac:(lia)) as Hle. fold PB in Hle. rewrite EPB in Hle.
+        unfold bar_rows in Hle. rewrite <- EPB in HPBbars.
+        assert (Efil : filter is_bar (pb :: PB') = pb :: PB').
+        { rewrite EPB in HPBbars. clear -HPBbars. induction HPBbars as [|x l Hx Hf IH]; [reflexivity|]. cbn. now rewrite Hx, IH. }
+        rewrite Efil in Hle. rewrite HRsplit, app_length.
+        assert ((length RB <= Hn)%nat) by (unfold Hn; lia). lia.
+  Qed.
+End C19Erase.
+
+Section C19Screen.
+  Variable W H : N.
+  Hypothesis HW : 1 <= W.
+  Hypothesis HH : 1 <= H.
+  Variable pre : list (list N).
+  Let Wn := N.to_nat W.
+  Let Hn := N.to_nat H.
+
+  Lemma CInv_same tg tg' t log frame :
+    tt_n tg' = tt_n tg -> tt_align tg' = tt_align tg -> tt_below tg' = tt_below tg ->
+    CInv W H pre tg t log frame -> CInv W H pre tg' t log frame.
+  Proof. unfold CInv. intros -> -> ->. exact (fun x => x). Qed.
+
+  Lemma CInv_write tg t log w :
+    CInv W H pre tg t log [] -> w <> [] -> CInv W H pre tg (exec Wn Hn t (TLine w)) (log ++ [w]) [].
+  Proof using HW HH.
+    assert (HWn : (1 <= Wn)%nat) by (unfold Wn; lia).
+    assert (HHn : (1 <= Hn)%nat) by (unfold Hn; lia).
+    intros (Hal & L & F & HL & HF & Hlen & Hstate) Hw.
+    assert (HF0 : F = []).
+    { apply rows_equiv_length in HF. cbn in HF. destruct F; [reflexivity | discriminate]. }
+    subst F. destruct Hstate as [[_ Hr] | (HFne & _)]; [|congruence].
+    destruct (line_spec Wn Hn (pre ++ L) t w HWn HHn Hr (or_introl Hw)) as (Hr' & _ & _).
+    split; [exact Hal|]. exists (L ++ chunks Wn w), [].
+    split; [rewrite wrap_app; apply rows_equiv_app; [exact HL|]; unfold wrap; cbn; rewrite app_nil_r; apply rows_equiv_refl|].
+    split; [apply rows_equiv_refl|]. split; [exact Hlen|].
+    left. split; [reflexivity|]. rewrite app_assoc. exact Hr'.
+  Qed.
+
+  Lemma no_text_cut_ok_hist : forall h s, NoTextCut W H s h -> ok_hist W H (cut_ok W H) s h.
+  Proof.
+    induction h as [|x h IH]; intros s Hf; [exact Logic.I|].
+    unfold NoTextCut in Hf. cbn [no_text_cutb] in Hf. apply andb_prop in Hf. destruct Hf as [Hf1 Hf2].
+    cbn [ok_hist]. split; [|apply IH; exact Hf2].
+    unfold no_text_cut_step in Hf1. destruct (step W H nofail s (fst x) (snd x)) as [[s' e] r]. cbn [fst snd].
+    intros _. unfold cut_ok. destruct (snd x); try (left; reflexivity).
+    right. destruct (frame_of (get_bar s' 0)); [exact Logic.I | apply N.leb_le; exact Hf1].
+  Qed.
+
+  Lemma c19_invariant s0 t0 h :
+    sb_initial s0 -> ready Wn Hn pre t0 -> hist_ok h -> NoTextCut W H s0 h ->
+    SInv (CInv W H pre) (sb_run W H (s0, ghost0, t0) h).
+  Proof using HW HH.
+    intros (b & tg & Hs & Ht & Hn0 & Hal & Hbel) Hr Hok Hcut.
+    apply (run_gen W H (cut_ok W H) (CInv W H pre)).
+    - left. reflexivity.
+    - intros tg1 tg1' t1 l1 f1 E1 E2 E3 Hi1. exact (CInv_same tg1 tg1' t1 l1 f1 E1 E2 E3 Hi1).
+    - intros tg1 t1 l1 f1 tx bs c1 Hi1 Htx Hbs Hk. exact (CInv_draw W H HW HH pre tg1 t1 l1 f1 tx bs c1 Hi1 Htx Hbs Hk).
+    - intros tg1 t1 l1 w1 Hi1 Hw1. exact (CInv_write tg1 t1 l1 w1 Hi1 Hw1).
+    - exists b, tg. cbn [fst snd ghost0 g_log g_frame map]. split; [split; assumption|].
+      split; [exact Hal|]. exists [], []. rewrite Hn0. cbn [length N.to_nat].
+      split; [apply rows_equiv_refl|]. split; [apply rows_equiv_refl|]. split; [reflexivity|].
+      left. split; [reflexivity|]. rewrite app_nil_r. exact Hr.
+    - exact Hok.
+    - apply no_text_cut_ok_hist. exact Hcut.
+  Qed.
+
+  (** C19 (d) as a screen equation, WITHOUT the Fits proviso: after every history the terminal
+      shows exactly the log and the maximal fitting prefix of the frame - every earlier frame,
+      wrapped and cut or not, has been blanked completely and nothing above it was touched
+      (cursor-up was never clamped: the rows to erase are within reach, [CInv]) *)
+  Theorem c19_erase_exact s0 t0 h :
+    sb_initial s0 -> ready Wn Hn pre t0 -> hist_ok h -> NoTextCut W H s0 h ->
+    let g := snd (fst (sb_run W H (s0, ghost0, t0) h)) in
+    let t := snd (sb_run W H (s0, ghost0, t0) h) in
+    exists k, screen Wn t = map (pad Wn) (expected_rows_cut W H pre g) ++ repeat (repeat SP Wn) k.
+  Proof using HW HH.
+    intros Hinit Hr Hok Hcut. cbv zeta.
+    pose proof (c19_invariant s0 t0 h Hinit Hr Hok Hcut) as Hinv.
+    pose proof (ghost_frame_bars W H h (s0, ghost0, t0) (Forall_nil _)) as Hgb.
+    destruct (sb_run W H (s0, ghost0, t0) h) as [[s g] t]. unfold SInv in Hinv. cbn [fst snd] in *.
+    destruct Hinv as (b & tg & _ & _ & L & F & HL & HF & _ & Hstate).
+    rewrite (bars_eta _ Hgb) in HF.
+    unfold expected_rows_cut, fit_prefix. unfold fitting_prefix in HF. unfold Wn, Hn in *.
+    assert (Hall : exists k, all_rows t = (pre ++ L ++ F) ++ repeat [] k).
+    { destruct Hstate as [[-> Hready] | (HFne & _ & k & v & -> & _)].
+      - rewrite app_nil_r. exact (ready_all_rows _ _ _ _ Hready).
+      - exists k. unfold at_end, all_rows, app_state. cbn [t_above t_cur t_below].
+        rewrite rev_involutive.
+        assert (Hne : pre ++ L ++ F <> []) by (destruct pre; [destruct L; [exact HFne | discriminate] | discriminate]).
+        rewrite (app_removelast_last [] Hne) at 3. rewrite <- app_assoc. reflexivity. }
+    destruct Hall as (k & Hall). exists k.
+    unfold screen. rewrite Hall. rewrite !map_app. unfold rows_equiv in HL, HF. rewrite HL, HF.
+    rewrite map_repeat', pad_nil. now rewrite <- !app_assoc.
+  Qed.
+End C19Screen.
